@@ -274,10 +274,20 @@ where
 }
 
 /// If we are not using Rust struct as schema, check if we should not be quoting the value.
+/// `inf`, `infinity` and `nan` (any case, optional sign) are floats for Rust's parser, which
+/// `parse_yaml12_float` falls back to, but not for YAML: its non-finite floats are `.inf` and
+/// `.nan`. Where the type is inferred from the text these are ordinary words.
+pub(crate) fn is_rust_only_float_word(s: &str) -> bool {
+    let t = s.trim();
+    let t = t.strip_prefix(['+', '-']).unwrap_or(t);
+    t.eq_ignore_ascii_case("inf") || t.eq_ignore_ascii_case("infinity") || t.eq_ignore_ascii_case("nan")
+}
+
 pub(crate) fn maybe_not_string(s: &str, style: &ScalarStyle) -> bool {
     let location = Location::UNKNOWN;
     style == &ScalarStyle::Plain
-        && (parse_yaml12_float::<f64>(s, location, SfTag::None, false).is_ok()
+        && ((!is_rust_only_float_word(s)
+            && parse_yaml12_float::<f64>(s, location, SfTag::None, false).is_ok())
             || parse_int_signed::<i128>(s, "i128", location, false).is_ok()
             || parse_yaml11_bool(s).is_ok()
             || scalar_is_nullish(s, &ScalarStyle::Plain))
